@@ -12,7 +12,57 @@ COMMON_NOTE = ("Trusted: Coq 8.16.1 kernel (+ vm_compute), no axioms (Print Assu
                "correspondence check run on every invocation: model evaluated inside Coq on generated cases and "
                "compared with the implementation), the harness glue (case printing, canonicalisation). ")
 
+TRAV_NOTE = COMMON_NOTE + "Static (fully parsed) graphs only; synthetic graphs are built from real TestNode/TestObject/TestWorker/TestGraph objects with the recipe replaced by a fixed parameter dictionary and the parse of the creation pre-node replaced by a stub node; the coroutines are resumed by hand (one atomic section per resume); store semantics shared by model, fake door and stub task is an assumption (PASS puts the set states into the worker's own pool, a scan reads own and shared pools, unset removes from the own pool); the relations the code evaluates on names (worker id in name, scope strings, location substrings, bridged form, prefix priority) are exported from the real objects by the harness's own code."
+
 CHECKS = {
+    "C01": dict(
+        engine="corr-trace",
+        technique="Coq proof of the decision links (start needs a positive run decision; a clean scan saw every set state in own/shared pool; a passing run leaves its states in the own pool) + trace refinement: hand-driven real coroutines vs the Gallina traversal model, section by section; availability itself is a monitor on the implementation's pools",
+        text=("PARTIAL and REFUTED in one configuration. Proved over Model/Traverse*.v (all graphs/states): the links of the availability argument (C01_*_partial). The end-to-end statement is false of the faithful model and of the code when the only copy of a state was left in ANOTHER worker's own pool by an earlier run (known finding, reported as KNOWN-FINDING with that exact signature; any other unavailable state is a VIOLATION). The monitor checks, at every test start observed on the real code, that each required state is in the worker's own pool, the shared pool or a pool named in get_location, unless its producer (or creation pre-step) was attempted and did not pass. The model is compared with the real traversal on every atomic section of every generated run."),
+        note=TRAV_NOTE,
+        design="§5 C01"),
+    "C02": dict(
+        engine="corr-trace",
+        technique="Coq proof (picks never fail on a not-ready node; for every schedule no execution in a dry run: invariant over resume/run_schedule) + trace refinement against hand-driven real coroutines; termination / no traversal error / definite results are monitors on the implementation's runs",
+        text=('PARTIAL. Proved: pick_child/pick_parent succeed whenever the loop calls them (node not cleanup-/setup-ready); for every graph, pool population and schedule no node with dry_run is ever executed. Checked on every generated run of the real code: all workers exit with path [root], no traversal error, every leaf has a non-pending result (runs without never-reported outcomes), dry runs touch nothing. Termination is not proved (lazy expansion and the bump are outside the model). A non-termination found this way (failing creation pre-step retried without bound) was repaired (fix: f7f35cf).'),
+        note=TRAV_NOTE,
+        design="§5 C02"),
+    "C03": dict(
+        engine="corr-trace",
+        technique="Coq proof (for every schedule flat tests and clone sources are never executed: invariant over resume/run_schedule; rerun is granted only below max_tries) + trace refinement; the per-scope execution count is a monitor on the implementation's runs",
+        text=('PARTIAL. Proved for all graphs, pools and schedules: flat and clone-source nodes are never executed; should_rerun grants a rerun only while the counted results (in-flight placeholders included) are below max_tries; a stateless test without results runs once. Checked on the real code: executions per class and reuse scope <= max(1, max_tries) (unless an occupation bump occurred or max_concurrent_tries exceeds max_tries), setup found present at first examination is not executed, execution ids are not reused. A budget violation found this way (concurrent creation pre-steps) was repaired (fix: e60d612).'),
+        note=TRAV_NOTE,
+        design="§5 C03"),
+    "C04": dict(
+        engine="corr-trace",
+        technique='Coq proof of the test-and-set structure (an execution begins only on a node that is not occupied, in the section that occupies it; occupied = at least max(1, limit) holders in scope) + trace refinement; the concurrency count over whole runs is a monitor',
+        text=("PARTIAL. Proved: traverse_node starts an execution only when is_occupied is false; is_occupied is exactly the threshold test on the scope's holders (global scope: count of shared_started). Checked on the real code over random schedules with 2-4 workers meeting at the same node: never more than max(1, max_concurrent_tries or max_tries) workers of a scope inside one class, creation pre-step + installation counting as one interval; back-off periods equal the model's."),
+        note=TRAV_NOTE,
+        design="§5 C04"),
+    "C05": dict(
+        engine="corr-trace",
+        technique='Coq proof (clean decision of a node with removable states implies every involved worker is done with all dependants and nobody runs it; removal requests contain only states marked f., selected, non-net; default pool filter never copies) + trace refinement; timing of removals against running/pending dependants is a monitor',
+        text=("Proved for all graphs/states: C05_unset_only_after_dependants (decision level), C05_only_if_asked, C05_default_filter_inert. Checked on the real code: every door request (unset/get) equals the model's; no state is removed while a dependant that could fetch it is running or pending; nothing is requested at all when no state is marked and the filter is reuse/block. PARTIAL: 'after every dependant finished' over whole traces is the monitor, the theorem is about the decision."),
+        note=TRAV_NOTE,
+        design="§5 C05"),
+    "C08": dict(
+        engine="corr-trace",
+        technique="Coq proof by invariant over resume/run_schedule (for EVERY graph, pool population and schedule each execution is started by a worker whose id occurs in the node's name; foreign nodes make the decision fail; picks go to own or flat neighbours) + trace refinement incl. the pulled get_location lists",
+        text=("Proved: C08_own_worker for all schedules (the code's ownership test = worker id is a substring of the name; the harness evaluates on every configuration that this coincides with 'parsed for that worker'). Checked on the real code at every test start: started by the worker of the node's net, connection parameters are that worker's, every named location belongs to a worker with a PASS result on the producing class and comes with that worker's access parameters; the pulled locations equal the model's (compared as sets)."),
+        note=TRAV_NOTE,
+        design="§5 C08"),
+    "C15": dict(
+        engine="corr-pure",
+        technique="Coq proof (worklist closure of flag_children; list lemmas for the run/remove sets of update on a chain of states) + correspondence: the real update tool under the selftests' job seam vs Model/Tools.v on a separately parsed state graph",
+        text=("Proved: flag_children reaches exactly the nodes connected through child edges (with/without the start node); on a duplicate-free chain update_runs = the segment from from_state to to_state, both included, update_unsets = exactly what follows to_state. Checked: intertest_setup.update for (from,to) pairs along vm1's states x worker sets runs exactly those tests and removes exactly the states derived from to_state, touches no other vm, and rejects unknown states. PARTIAL: the state graph given to the model comes from the real parser."),
+        note=COMMON_NOTE + "The selftests' job seam (mock job, stub run_test_task with random short delays, recording door) stands for the avocado job and the remote state control.",
+        design="§5 C15"),
+    "C20": dict(
+        engine="corr-pure",
+        technique="Coq proof by induction over the chain (all steps run in order; return code 1 iff some step failed) + invariant over schedules (only the own worker executes a node) + correspondence: real Manu.run with stub steps (exhaustive up to length 3) and the real per-vm / per-worker tools under the selftests' job seam",
+        text=("Proved: chain theorems for any chain; C20_only_own_worker_partial for any schedule. Checked: Manu.run against the model for every chain of up to 3 outcomes over {None, 0, 1, 2, raise}; check/get/set/unset/push/pop/clean execute exactly once per selected vm and worker with the step's vm_action, boot/shutdown once per worker with all selected vms, nothing for unselected vms (evaluated by Check.C20.star_ok). PARTIAL: 'exactly once' is checked on the real tools, not proved for the traversal model."),
+        note=COMMON_NOTE + "The selftests' job seam (mock job, stub run_test_task with random short delays, recording door) stands for the avocado job and the remote state control.",
+        design="§5 C20"),
     "C14": dict(
         engine="corr-proc",
         technique="Coq proof (file-system model with one-level links: case analysis + store lemmas for exactness / no-destruction; invariant over the event list of a lock-protocol transition system for mutual exclusion, release, time-out) + correspondence: exhaustive small file-system state space on real directories, and acceptance of lock traces recorded from real forked processes (kills, injected failures, time-outs)",
@@ -153,6 +203,7 @@ def main():
         "engines": [
             {"name": "coq", "path": "coq/", "serves_properties": sorted(CHECKS), "kind_free_text": "Coq 8.16.1 theories: Model (definitions), Proofs (lemmas), Props (property theorems + Print Assumptions), Check (executable checkers used by the correspondence)"},
             {"name": "corr-proc", "path": "harness/props/c14.py", "serves_properties": [p for p in sorted(CHECKS) if CHECKS[p]["engine"] == "corr-proc"], "kind_free_text": "real temporary directories and forked processes; observed file systems and lock traces evaluated by the Gallina model / acceptor"},
+            {"name": "corr-trace", "path": "harness/trav.py", "serves_properties": [p for p in sorted(CHECKS) if CHECKS[p]["engine"] == "corr-trace"], "kind_free_text": "event-loop-free driver resuming the real traverse_object_trees coroutines one atomic section at a time; traces compared with Model/TraverseRun.v by vm_compute; property monitors on the implementation's pools and events"},
             {"name": "corr-pure", "path": "harness/", "serves_properties": [p for p in sorted(CHECKS) if CHECKS[p]["engine"] == "corr-pure"], "kind_free_text": "generated cases run through the real Python code and through the Gallina model (cases.v + vm_compute), diffed inside Coq"},
         ],
         "checks": checks,
